@@ -240,13 +240,19 @@ class EnsembleLayout(E2Contract):
             for idx, v in ref.items():
                 mk.require(v[0] >= 2 * EPS)
         kind, ref = spec_chain(W, c_sys, chain)
-        return dict(st=st, mps=mps, ref=ref)
+        pv = param_obj(W, mk, "povm", c_sys, 2, "e")
+        kind2, joint = spec_chain(W, c_sys, [("povm", list(pv.vecs))] + chain)
+        for idx, v in joint.items():
+            mk.require(v >= 2 * EPS)
+        return dict(st=st, mps=mps, ref=ref, pv=pv, joint=joint)
 
     def sample(self, cfg, names, rng):
+        import math
         vals = {n: rng.uniform(-0.05, 0.05) for n in names}
         for i, m in enumerate(cfg):
             for x in range(m - 1):
                 vals[f"m{i}__{x * 16}"] = 1.0 / m + rng.uniform(-0.03, 0.03)
+        vals["e_0"] = math.sqrt(2) / 2 + rng.uniform(-0.03, 0.03)
         return vals
 
     def run(self, W, cfg, inp):
@@ -257,6 +263,10 @@ class EnsembleLayout(E2Contract):
         idxs = list(itertools.product(*[range(m) for m in cfg]))
         out = dict(shape=list(r.prob_dist.shape), by_tuple=[r.state(i).vec for i in idxs], by_serial=[r.state(k).vec for k in range(len(idxs))],
                    p_tuple=[r.prob_dist[i] for i in idxs], p_serial=[r.prob_dist[k] for k in range(len(idxs))])
+        jd = ops.compose_qoperations(inp["pv"], r)
+        out["povm_joint"] = [jd[i + (y,)] for i in idxs for y in range(2)]
+        out["povm_joint_shape"] = list(jd.shape)
+        out["povm_marginal"] = list(jd.marginalize(list(range(len(cfg)))).ps)
         if len(cfg) > 1:
             # the same measurements composed into ONE measurement process (multi-index outcome shape) first, then applied to the state
             mp_all = inp["mps"][0]
@@ -280,6 +290,11 @@ class EnsembleLayout(E2Contract):
         for k, i in enumerate(idxs):
             cl.append(eq(f"state[{i}]", S.op_from_vec(c_sys, out["by_tuple"][k]) * ref[i][0], ref[i][1],
                          "state(x1,..) is the post-measurement state of exactly that outcome sequence"))
+        cl += [eq("povm-on-ensemble/shape", out["povm_joint_shape"], list(cfg) + [2], "a POVM measured on the ensemble: outcome shape = ensemble shape + POVM outcomes"),
+               eq("povm-on-ensemble/joint", out["povm_joint"], [inp["joint"][i + (y,)] for i in idxs for y in range(2)],
+                  "joint[(x.., y)] == P(x..) * P(y | x..) == Tr(E_y branch operator of x..)"),
+               eq("povm-on-ensemble/marginal==ensemble-distribution", out["povm_marginal"], [ref[i][0] for i in idxs],
+                  "summing out the POVM outcome gives back the ensemble's distribution, outcome by outcome")]
         if "joint_shape" in out:
             cl += [eq("joint-process/shape", out["joint_shape"], list(cfg), "a multi-outcome measurement process applied to a state keeps its outcome shape"),
                    eq("joint-process/probabilities", out["joint_p_tuple"], [ref[i][0] for i in idxs], "and addresses the same probabilities by tuple"),
@@ -343,3 +358,68 @@ class ValidateProbDist(E2Contract):
         if isinstance(out, Raised):
             return [true("accepts-iff-valid", S.And(out.name == "ValueError", S.Not(ok)), "a ValueError is raised => an entry is below -eps or the sum is further than eps from 1")]
         return [true("accepts-iff-valid", ok, "accepted => every entry >= -eps and |sum - 1| <= eps (absolute tolerance)")]
+
+
+class EnsembleTensorProduct(E2Contract):
+    """tensor_product of two state ensembles on different subsystems, with different numbers of members: shape = shape1 + shape2, and the entry
+    addressed by (x1, x2) is the product probability p1[x1] p2[x2] together with the product state state1(x1) (x) state2(x2)"""
+    name = "tensor_product(StateEnsemble, StateEnsemble)"
+    prop = "C16"
+    targets = ("quara.objects.operators:_tensor_product_StateEnsemble_StateEnsemble", "quara.objects.state_ensemble:StateEnsemble.state",
+               "quara.objects.multinomial_distribution:MultinomialDistribution.__getitem__")
+    frame = False
+    n_conformance = 1
+    max_paths = 16
+
+    def configs(self, tier):
+        return [(2, 3), (3, 2)]
+
+    def inputs(self, W, cfg, mk):
+        ps = []
+        for k, m in enumerate(cfg):
+            p = mk.array(f"p{k}_", m)
+            tot = 0
+            for x in range(m - 1):
+                mk.require(p[x] >= 1e-3)
+                tot = tot + p[x]
+            p[m - 1] = 1 - tot
+            mk.require(p[m - 1] >= 1e-3)
+            ps.append(p)
+        vecs = [[mk.array(f"s{k}_{x}_", 4) for x in range(m)] for k, m in enumerate(cfg)]
+        return dict(ps=ps, vecs=vecs)
+
+    def sample(self, cfg, names, rng):
+        vals = {n: rng.uniform(-0.3, 0.3) for n in names}
+        for k, m in enumerate(cfg):
+            w = [rng.uniform(0.2, 1) for _ in range(m)]
+            for x in range(m - 1):
+                vals[f"p{k}__{x}"] = w[x] / sum(w)
+        return vals
+
+    def _ensembles(self, W, inp, cfg):
+        from .C07_all import esys, single
+        MDc = W.mod(MD).MultinomialDistribution
+        st = W.mod("quara.objects.state")
+        se = W.mod("quara.objects.state_ensemble")
+        out = []
+        for k, m in enumerate(cfg):
+            c = single(W, esys(W, k, 2))
+            states = [st.State(c, W.np.copy(v), is_physicality_required=False) for v in inp["vecs"][k]]
+            out.append(se.StateEnsemble(states, MDc(W.np.copy(inp["ps"][k]), (m,))))
+        return out
+
+    def run(self, W, cfg, inp):
+        e1, e2 = self._ensembles(W, inp, cfg)
+        r = W.mod("quara.objects.operators").tensor_product(e1, e2)
+        idxs = list(itertools.product(range(cfg[0]), range(cfg[1])))
+        return dict(shape=list(r.prob_dist.shape), p=[r.prob_dist[i] for i in idxs], states=[r.state(i).vec for i in idxs],
+                    marg0=list(r.prob_dist.marginalize([0]).ps), marg1=list(r.prob_dist.marginalize([1]).ps))
+
+    def post(self, W, cfg, inp, out):
+        np = W.np
+        idxs = list(itertools.product(range(cfg[0]), range(cfg[1])))
+        return [eq("shape", out["shape"], list(cfg), "outcome shape == shape of the first ensemble + shape of the second"),
+                eq("product-probabilities", out["p"], [inp["ps"][0][i] * inp["ps"][1][j] for i, j in idxs], "prob_dist[(x1, x2)] == p1[x1] * p2[x2]"),
+                eq("product-states", out["states"], [np.kron(inp["vecs"][0][i], inp["vecs"][1][j]) for i, j in idxs],
+                   "state((x1, x2)) == state1(x1) (x) state2(x2) (subsystems in ascending name order)"),
+                eq("marginals", [out["marg0"], out["marg1"]], [list(inp["ps"][0]), list(inp["ps"][1])], "each ensemble's distribution is the marginal over the other's variables")]
